@@ -56,6 +56,14 @@ class Prop(PropBase):
             nops = rng.choice([2, 3, 5, 8, 13, 21, 34, 60]) if tier == "quick" else rng.choice([3, 8, 21, 60, 150, 400])
             line = tg.history(rng, nops, sized=True, ops_weights=CURSOR_WEIGHTS)
             cs.append(Case(line, tag="history", nontrivial=line.count(";") > 2, cfgs=tg.configs(rng, 3)))
+        # correspondence only (outside the declared-size domain of the oracle): no size declared at all, and degenerate
+        # declarations (zero / negative extents) - what the record holds there is still tied to the model
+        for i in range(600 if tier == "quick" else 8000):
+            line = tg.history(rng, rng.choice([2, 4, 8, 20]), sized=False, ops_weights=CURSOR_WEIGHTS)
+            if i % 3 == 0:
+                head, _, rest = line.partition(" ; ")
+                line = "%s ; sz %d %d ; %s" % (head, rng.choice([0, 0, -1, -7, 5]), rng.choice([0, -1, 3, 0]), rest)
+            cs.append(Case(line, tag="history-undeclared-or-degenerate-size", oracle=False))
         shc = ["%d %d %d %d 7 4" % (wv, e, r, z) for wv in range(3) for e in range(3) for r in range(6) for z in range(4)]
         for line, cf in tg.short_histories(3 if tier == "quick" else 4, shc):
             cs.append(Case(line, sweep="short-histories", cfgs=cf))
